@@ -114,6 +114,7 @@ func (concurrencyModel) closeChan(g *VCGen, c *ssa.CallCommon, pos token.Pos) {
 // is on a closed channel (a closed channel is always ready).
 func (cm concurrencyModel) selectI(g *VCGen, x *ssa.Select) {
 	g.chanHeaps()
+	g.beforeNamed("select", x.Pos(), x)
 	idx := g.freshConst("select!idx", "Int")
 	lo := "0"
 	if !x.Blocking {
